@@ -42,10 +42,19 @@ var stageD = []string{
 	"Expression.Evaluate",
 }
 
+// (E) datalog/datalog.go: predicates, fact sets, the carry step of the join odometer;
+// equality theorems in Proofs/GenFnDatalogProofs.v
+var stageE = []string{
+	"Predicate.Equal", "Predicate.Match",
+	"FactSet.Insert", "FactSet.InsertAll", "FactSet.Equal",
+	"advanceIndexes",
+}
+
 func main() {
 	args := os.Args[1:]
 	whitelist = append(whitelist, unproved...)
 	whitelist = append(whitelist, stageD...)
+	whitelist = append(whitelist, stageE...)
 	if len(args) > 0 && args[0] == "-all" {
 		args = args[1:]
 	}
